@@ -55,7 +55,7 @@ class Poly:
 
     def key(self):
         if self._key is None:
-            self._key = tuple(sorted(self.terms.items(), key=_k))
+            self._key = ("poly",) + tuple(sorted(self.terms.items(), key=_k))
         return self._key
 
     def __hash__(self):
@@ -248,7 +248,7 @@ def show_key(k, depth=0):
         return show_atom(k, depth)
     if isinstance(k, tuple):  # poly key: tuple of (mono, coef)
         try:
-            return show(Poly(dict(k)), depth)
+            return show(poly_from_key(k), depth)
         except Exception:
             return repr(k)
     return repr(k)
@@ -258,6 +258,8 @@ def show_atom(a, depth=0):
     if depth > 12:
         return "…"
     tag = a[0]
+    if tag == "poly":
+        return show(poly_from_key(a), depth)
     if tag == "v":
         return str(a[1])
     if tag == "const":
@@ -344,10 +346,25 @@ def g_cmp(op, a, b, keys=False):
 
 
 def _const_of_key(k):
-    if k == ():
+    if k == ("poly",):
         return Fraction(0)
-    if isinstance(k, tuple) and len(k) == 1 and isinstance(k[0], tuple) and k[0][0] == ():
-        return k[0][1]
+    if isinstance(k, tuple) and len(k) == 2 and k[0] == "poly" and k[1][0] == ():
+        return k[1][1]
+    return None
+
+
+def poly_from_key(k):
+    if not _is_polykey(k):
+        raise Unsupported("not a polynomial key: %r" % (k,))
+    return Poly(dict(k[1:]))
+
+
+def key_atom(k):
+    """The single atom a key denotes (a polynomial key that is exactly one atom, or an atom key)."""
+    if _is_polykey(k):
+        return poly_from_key(k).as_atom()
+    if isinstance(k, tuple) and k and isinstance(k[0], str):
+        return k
     return None
 
 
@@ -448,6 +465,7 @@ ALIASES = {
     "np.exp": "exp", "math.exp": "exp",
     "np.log1p": "log1p", "math.log1p": "log1p",
     "math.lgamma": "lgamma",
+    "log_gamma": "lgamma",
     "np.sum": "sum",
     "np.abs": "abs",
     "np.isneginf": "isneginf",
@@ -488,7 +506,7 @@ class Event:
 class Interp:
     """Abstract interpreter of one function (with bounded inlining of repository helpers)."""
 
-    def __init__(self, prog, inline=None, no_inline=(), max_depth=5, opaque_self_methods=(), inline_all_repo=False, copy_is_identity=True):
+    def __init__(self, prog, inline=None, no_inline=(), max_depth=8, opaque_self_methods=(), inline_all_repo=False, copy_is_identity=True):
         self.prog = prog
         self.inline = set(inline or ())  # extra qualname suffixes to inline
         self.no_inline = set(no_inline)
@@ -685,8 +703,11 @@ class Frame:
                 raise Unsupported("loop over %d concrete items" % len(it.items))
             return list(it.items)
         if isinstance(it, AList):
+            # a list built over pseudo-elements: its items are the representatives
+            if it.items:
+                return list(it.items)
             dk = it.key()
-            return list(it.items) + [Poly.atom(("elem", dk, i)) for i in range(K_ELEMS)]
+            return [Poly.atom(("elem", dk, i)) for i in range(K_ELEMS)]
         if isinstance(it, ADict):
             return [v[0] for v in it.items.values()]
         t = as_term(it)
@@ -720,6 +741,12 @@ class Frame:
             return
         if isinstance(target, ast.Attribute):
             base = self.eval(target.value, st)
+            ci = self.class_of(base, target.value, st)
+            if ci is not None:
+                setter = self.I.prog.prop(ci, target.attr, "setter")
+                if setter is not None and self.should_inline(setter):
+                    self.call_function(setter, [base, v], {}, st, target, self_cls=ci)
+                    return
             slot = ("@attr", vkey(base), target.attr)
             st.env[slot] = v
             self.I.events.append(Event("store_attr", [base, v], {"attr": target.attr}, st.guards, target))
@@ -739,7 +766,7 @@ class Frame:
         if isinstance(v, (ATuple, AList)) and not getattr(v, "doms", None) and len(v.items) == n:
             return list(v.items)
         k = vkey(v)
-        return [Poly.atom(("elem", k, i, "unpack")) if False else Poly.atom(("unpack", k, i)) for i in range(n)]
+        return [Poly.atom(("sub", k, Poly.const(i).key())) for i in range(n)]
 
     # ------------------------------------------------------------ expressions
     def eval(self, e, st):
@@ -1080,6 +1107,12 @@ class Frame:
             return Poly.const(fn(a.const_value() for a in args))
         if dotted == "range":
             return Poly.atom(("call", "range", tuple(vkey(a) for a in _range_args(args)), ()))
+        if dotted == "map" and len(args) == 2 and not kwargs:
+            fref, it = args
+            els = self.domain_elements(it, node)
+            concrete = isinstance(it, (AList, ATuple)) and not getattr(it, "doms", None)
+            doms = list(getattr(it, "doms", [])) if isinstance(it, AList) else ([] if concrete else [vkey(it)])
+            return AList([self.apply_ref(fref, [e], st, node) for e in els], doms)
         if dotted in ("zip", "enumerate"):
             return Poly.atom(("call", dotted, tuple(vkey(a) for a in args), tuple(sorted((k, vkey(v)) for k, v in kwargs.items()))))
         if dotted == "float" and len(args) == 1 and isinstance(args[0], str):
@@ -1116,6 +1149,20 @@ class Frame:
         if ci is not None:
             return self.opaque_call("new:" + ci.name, args, kwargs, st, node)
         return self.opaque_call(name, args, kwargs, st, node)
+
+    def apply_ref(self, fref, args, st, node):
+        """Call a function *reference* (first argument of map): a global function or a bound method."""
+        a = fref.as_atom() if isinstance(fref, Poly) else None
+        if a is not None and a[0] == "g":
+            fi = self.I.prog.functions.get(a[1]) or self.I.prog._resolve_dotted_fn(a[1])
+            if fi is not None and self.should_inline(fi):
+                return self.call_function(fi, args, {}, st, node)
+            nm = a[1].split(".")[-1]
+            return self.opaque_call(ALIASES.get(a[1], ALIASES.get(nm, nm)), args, {}, st, node)
+        if a is not None and a[0] == "attr":
+            self.I.events.append(Event("." + a[2], args, {}, st.guards, node, recv=None))
+            return Poly.atom(("mcall", a[2], a[1], tuple(vkey(x) for x in args), ()))
+        raise Unsupported("call through reference %s" % show(fref))
 
     def should_inline(self, fi):
         q = fi.qualname
@@ -1272,7 +1319,7 @@ def _absent_to_zero(v):
             if val == Poly.atom(("absent",)).key():
                 alts.append((g, Poly.const(0)))
             else:
-                alts.append((g, Poly(dict(val)) if _is_polykey(val) else Poly.atom(("val", val))))
+                alts.append((g, poly_from_key(val) if _is_polykey(val) else Poly.atom(("val", val))))
         return as_term(make_cond(alts))
     if a == ("absent",):
         return Poly.const(0)
@@ -1280,7 +1327,7 @@ def _absent_to_zero(v):
 
 
 def _is_polykey(k):
-    return isinstance(k, tuple) and (k == () or (isinstance(k[0], tuple) and len(k[0]) == 2 and isinstance(k[0][0], tuple) and not (k[0][0] and isinstance(k[0][0][0], str))))
+    return isinstance(k, tuple) and len(k) >= 1 and k[0] == "poly"
 
 
 def _range_args(args):
@@ -1360,7 +1407,7 @@ class Valuation:
         if p in self.cache:
             return self.cache[p]
         tot = 0.0
-        for m, c in p:
+        for m, c in p[1:]:
             v = float(c)
             for a, pw in m:
                 v *= self.atom(a) ** pw
